@@ -216,8 +216,10 @@ pub(crate) mod split {
             let cs: Vec<char> = s.chars().collect();
             for colon in [false, true] {
                 let exp = split_exec(&cs, colon);
-                let got = SplittedString::split(s, colon);
-                let g = (got.preceding().to_string(), got.word().to_string(), got.trailing().to_string());
+                let g = match std::panic::catch_unwind(|| { let got = SplittedString::split(s, colon); (got.preceding().to_string(), got.word().to_string(), got.trailing().to_string()) }) {
+                    Ok(g) => g,
+                    Err(_) => { if fails.len() < 6 { fails.push(json!({"clause": "C01 C03 C17 split returns for every text (panic)", "input": s, "include_colon": colon, "history": {"config": {"layout": "avro_phonetic", "phonetic_suggestion": true}, "events": [{"type": s}]}})); } continue; }
+                };
                 if g != exp {
                     // the curved quotes are punctuation because smart quoting produces them: a displayed candidate is split again
                     // when a choice is learned (C09) and the fixed method splits its own buffer (C17)
@@ -1285,11 +1287,11 @@ mod api {
             if let Some(b) = before { std::fs::write(&path, b).unwrap(); crate::verif_driver::set_mtime(&path, 1_000_000); }
             let mut s = Sess::new(cfgv.clone());
             for w in ["hello", "zzq", "hellogulo", "kotha"] { let _ = s.typ(w); s.finish(); }
-            // the edit reaches the disk the way editors and settings dialogs save: in place for the first four, as a new file renamed
-            // over the old one (another inode under the same name) for the others
+            // the edit reaches the disk the way editors and settings dialogs save: in place for some, as a new file renamed over the
+            // old one (another inode under the same name) for the others
             match after {
                 Some(a) => {
-                    if name.len() % 2 == 0 { std::fs::write(&path, a).unwrap(); }
+                    if before.is_none() || name == "damage" || name == "empty list" { std::fs::write(&path, a).unwrap(); }
                     else { let tmp = format!("{}.tmp", path); std::fs::write(&tmp, a).unwrap(); std::fs::rename(&tmp, &path).unwrap(); }
                     crate::verif_driver::set_mtime(&path, 2_000_000);
                 }
@@ -1297,7 +1299,7 @@ mod api {
             }
             let cfg = make_config(&cfgv);
             s.ctx.update_engine(&cfg);
-            s.events.push(json!({"note": format!("user auto-correct edit: {} ({}); then update_engine", name, if name.len() % 2 == 0 { "written in place" } else { "renamed over" })}));
+            s.events.push(json!({"note": format!("user auto-correct edit: {} ({}); then update_engine", name, if before.is_none() || name == "damage" || name == "empty list" { "written in place" } else { "renamed over" })}));
             let mut fresh = Sess::new(cfgv.clone());
             for w in ["hello", "zzq", "hellogulo", "zzqgulo", "kotha"] {
                 let r = std::panic::catch_unwind(std::panic::AssertUnwindSafe(|| { let a = s.typ(w).unwrap(); s.finish(); a }));
@@ -1521,6 +1523,34 @@ mod api {
                 o.nontrivial += 1;
             }}}
         }
+        // the data FILES count, not the path they are found under nor which other contexts are alive (C05): a context is created over
+        // directory A and kept alive, the dictionary of A is replaced, a second context is created over A -- it answers like a context
+        // over directory B that holds byte-identical files
+        {
+            o.cases += 1;
+            let (da, db) = (format!("{}/verif-data-a", crate::verif_driver::user_dir()), format!("{}/verif-data-b", crate::verif_driver::user_dir()));
+            for d in [&da, &db] { let _ = std::fs::remove_dir_all(d); std::fs::create_dir_all(d).unwrap(); for f in ["suffix.json", "autocorrect.json"] { std::fs::copy(format!("{}/{}", crate::verif_driver::data_dir(), f), format!("{}/{}", d, f)).unwrap(); } }
+            std::fs::write(format!("{}/dictionary.json", da), "{}").unwrap();
+            std::fs::copy(format!("{}/dictionary.json", crate::verif_driver::data_dir()), format!("{}/dictionary.json", db)).unwrap();
+            let (mut ca, mut cb) = (phon_cfg(json!({})), phon_cfg(json!({})));
+            ca["database_dir"] = json!(da); cb["database_dir"] = json!(db);
+            let mut first = Sess::new(ca.clone());
+            let _ = first.typ("kotha"); first.finish();
+            std::fs::copy(format!("{}/dictionary.json", crate::verif_driver::data_dir()), format!("{}/dictionary.json", da)).unwrap();
+            let mut second = Sess::new(ca.clone());
+            let mut other = Sess::new(cb.clone());
+            for w in ["kotha", "kothagulo", "amar"] {
+                let x = second.typ(w).unwrap(); second.finish();
+                let y = other.typ(w).unwrap(); other.finish();
+                if show(&x) != show(&y) {
+                    o.fail(json!({"clause": "C05 a context created after the data files were replaced answers from the files as they are now (an older context over the same directory is still alive), like a context over another directory with identical files", "probe": w, "history": second.history(), "observed": show(&x), "expected": show(&y)}));
+                    break;
+                }
+            }
+            let _ = first.typ("a"); first.finish();
+            for d in [&da, &db] { let _ = std::fs::remove_dir_all(d); }
+            o.nontrivial += 1;
+        }
         // a configuration that names ANOTHER data directory (not covered by C11, which fixes the data directory): whatever the engine
         // does with it, two contexts with the same configuration history must agree -- one that composed the probe words before the
         // switch (warm memo) and one that composed nothing (C05: a function of text, configuration, data files and selections only;
@@ -1673,7 +1703,7 @@ mod api {
         let mut o = Out::new("smart_quote", bound, "words (incl. emoji names) x up to two leading / trailing punctuation characters from {\",',(,.} in both methods; list(on) vs list(off)");
         let punct: Vec<&str> = if bound >= 2 { vec!["", "\"", "'", "(", "\"'", "(\""] } else { vec!["", "\"", "('"] };
         let close: Vec<&str> = if bound >= 2 { vec!["", "\"", "'", ")", "'\"", ".\""] } else { vec!["", "\"", "'."] };
-        let jobs: Vec<(bool, Vec<&str>)> = vec![(true, vec!["amar", "bow", "e", "smile"]), (false, vec!["tp", "api", "hasi", "t"])];
+        let jobs: Vec<(bool, Vec<&str>)> = vec![(true, vec!["amar", "bow", "e", "smile"]), (false, vec!["tp", "api", "hasi", "t", "^"])];
         for (phonetic, words) in jobs {
             for eng in [false, true] {
                 for w in &words { for p in punct.iter() { for c in close.iter() {
